@@ -48,6 +48,7 @@ OWN_SER = [
     (MIX_TID, [0x123456, 0xABC, 0x123, 0x7F7FFFFF, 0, 0x00000001, 8388607, [1, 0x800000], 1, 64, None, 0xFFEFFFFFFFFFFFFF], ['own']),
 ]
 WITNESS_VALUE = [0x3F801000, 0x3F801000, 0, 0, [0, 0]]
+WITNESS_VALUE_ARRAY = [0, 0, 0, 0, [0x3F801000, 0xBF801000]]
 
 
 # ------------------------------------------------------------------------------------------------
@@ -215,18 +216,22 @@ class Failure(dict):
 
 
 def probe_tie(prep: campaign.Prepared) -> typing.Tuple[bool, dict]:
-    """does F-F16-TIE reproduce on the real generated code?  C (first C build) vs Python on the witness"""
+    """does F-F16-TIE reproduce on the real generated code?  C (first C build) vs Python on the witness, once with the tie in the
+    scalar fields (rounded by struct.pack('<e')) and once in the array elements (rounded when the generated setter stores them
+    into the NumPy float16 array); reproduces = the two targets differ and each answers what its model predicts"""
     cs = [t for _, t in prep.targets if t.name == 'c']
     ps = [t for _, t in prep.targets if t.name == 'py']
-    info: dict = {}
     if not cs or not ps or TIE_TID not in prep.db.types:
         return False, {'probe': 'not possible (needs a C and a Python build)'}
-    req = prep.model.ser_req(TIE_TID, WITNESS_VALUE)
-    rc = cs[0].run([req], timeout=60.0)[0]
-    rp = ps[0].run([req], timeout=60.0)[0]
-    mc, mp = prep.model.run([req, 'p' + req])
-    info.update({'request': req, 'c': rc, 'py': rp, 'model_c': mc, 'model_py': mp})
-    return (rc != rp and rc == mc and rp == mp), info
+    reqs = [prep.model.ser_req(TIE_TID, WITNESS_VALUE), prep.model.ser_req(TIE_TID, WITNESS_VALUE_ARRAY)]
+    rc = cs[0].run(reqs, timeout=60.0)
+    rp = ps[0].run(reqs, timeout=60.0)
+    mc = prep.model.run(reqs)
+    mp = prep.model.run(['p' + r for r in reqs])
+    rep = [rc[i] != rp[i] and rc[i] == mc[i] and rp[i] == mp[i] for i in range(2)]
+    info = {'request': reqs[0], 'c': rc[0], 'py': rp[0], 'model_c': mc[0], 'model_py': mp[0], 'scalar_reproduces': rep[0],
+            'array_request': reqs[1], 'array_c': rc[1], 'array_py': rp[1], 'array_reproduces': rep[1]}
+    return any(rep), info
 
 
 def run_all(targets, reqs_by_target: typing.Dict[str, typing.List[str]], timeout: float) -> typing.Dict[str, typing.List[str]]:
@@ -352,10 +357,12 @@ def evaluate(ctx: Ctx, cases, stats: dict, flags: typing.Optional[set] = None) -
             if c.op == 'ser':
                 exp = m_py[i] if t.name == 'py' else m_c[i]
                 ok = r == exp or agree_ser(ctx, c, r, exp)
-                if not ok and not ctx.tie_active and not tie_free[i]:
-                    # the finding no longer reproduces: on tie inputs the property only demands agreement between the targets
-                    # (checked pairwise above); either neighbour is a faithful rounding
-                    ok = agree_ser(ctx, c, r, m_c[i]) or agree_ser(ctx, c, r, m_py[i]) or modelmod.same_ser(m_c[i], r, ctx.mask(c))
+                if not ok and not tie_free[i]:
+                    # a tie input: the DSDL specification admits either neighbour and C03 demands agreement BETWEEN the targets,
+                    # which is what the pairwise comparison above enforces (a C-family/Python difference must match both rounding
+                    # models exactly and needs the listed finding); against the model either rounding rule is accepted so that a
+                    # repaired rounding rule on either side raises no alarm
+                    ok = agree_ser(ctx, c, r, m_c[i]) or agree_ser(ctx, c, r, m_py[i])
             else:
                 exp = m_c[i]
                 ok = r == exp or agree_des(ctx, c.tid, r, exp)
@@ -409,8 +416,9 @@ def evaluate(ctx: Ctx, cases, stats: dict, flags: typing.Optional[set] = None) -
                     fail('model', lab, a=lab, b='model', case=c, got_a=r2, got_b=md, step='des of own bytes ' + q,
                          what='generated deserializer disagrees with the specification on bytes its own serializer emitted')
                     continue
-                # round-trip value: cast(v) (for Python only when no tie is involved: the pre-adjusted value differs there)
-                if (t.name != 'py' or tie_free[i]) and cast_cache[i].startswith('ok'):
+                # round-trip value: cast(v); not on tie inputs, where the value depends on the rounding rule (there the decoded
+                # value was just compared with the specification's decoding of the target's own bytes)
+                if tie_free[i] and cast_cache[i].startswith('ok'):
                     cv = modelmod._canon_tokens(db, c.tid, cast_cache[i].split()[1:])
                     gv = modelmod._canon_tokens(db, c.tid, p[2:])
                     if cv is not None and cv != gv:
